@@ -23,6 +23,14 @@ def planok(nd, tx="(st opTx)"):
 //@             (= (@ {ri} tx) {tx})
 //@             (=> (not (= (@ {rq} Range) null)) (rangeKx (deref (@ {rq} Range))))))"""
 
+
+def ownwin(err, limit="(old (@ q limit))", guard=None):
+    """C03: the selection of the operation ran with the caller's own collection, skip, limit and sort options
+    (ghost iterQ = the query the last scan was run with); the criteria may have been replaced by their normal form."""
+    g = f"(= {err} vnil)" if not guard else f"(and (= {err} vnil) {guard})"
+    return (f"//@   ensures[C03] own-window: (=> {g} (and (= (S_query_Query_collection (st iterQ)) (old (@ q collection))) (= (S_query_Query_skip (st iterQ)) (old (@ q skip)))\n"
+            f"//@        (= (S_query_Query_limit (st iterQ)) {limit}) (= (S_query_Query_sortOpts (st iterQ)) (old (@ q sortOpts))) (= (= (S_query_Query_criteria (st iterQ)) vnil) (= (old (@ q criteria)) vnil))))")
+
 out = []
 def emit(s): out.append(s.rstrip("\n"))
 
@@ -298,9 +306,9 @@ api("(*DB).DeleteById", "write", coll="collection", use_extra="docs", commit="or
 //@   snapshot loaded after getCollectionMeta
 //@   assert-before[C06,C09] Tx.Set size-accounts: (= (@ meta Size) (ite (select (select (at loaded (st kvHas)) tx) (docKey collection id)) (bvsub (at loaded (@ meta Size)) (bv 1)) (at loaded (@ meta Size))))""")
 api("(*DB).UpdateById", "write", coll="collectionName", extra="//@   tags (C12 C06)\n//@   extra bind (updateIndexesOnDocUpdate coll collectionName)\n//@   extra bind (saveDocument coll collectionName)")
-api("(*DB).UpdateFunc", "write", nullable=None)
-api("(*DB).Delete", "write")
-api("(*DB).Update", "write")
+api("(*DB).UpdateFunc", "write", nullable=None, extra=ownwin("result"))
+api("(*DB).Delete", "write", extra=ownwin("result"))
+api("(*DB).Update", "write", extra=ownwin("result"))
 api("(*DB).createIndex", "write", coll="collection", extra="""//@   requires single-field: (= indexType (bv 0))
 // the catalog written back is the previous one plus the new field, which was not listed before (C14)
 //@   snapshot loaded after getCollectionMeta
@@ -334,15 +342,15 @@ api("(*DB).DropIndex", "write", coll="collection", use_extra="catalog", extra=""
 //@   loop 0 invariant found: (=> (bvsle (bv 0) j) (= (@ (idx (@ meta Indexes) j) Field) field))
 //@   loop 0 invariant loaded: (and (= (@ meta Indexes) (at loaded (@ meta Indexes))) (= (st F_index_Info_Field) (at loaded (st F_index_Info_Field))))
 //@   loop 0 decreases (bvsub LENMAX i)""")
-api("(*DB).FindAll", "read", err="result1", extra="//@   ensures[C09,C20] nonnil: (forall ((j (_ BitVec 64))) (! (=> (bvult j (len result0)) (not (= (idx result0 j) null))) :pattern ((idx result0 j))))")
-api("(*DB).IterateDocs", "read")
-api("(*DB).ForEach", "read")
-api("(*DB).Count", "read", err="result1", one_tx=False)
+api("(*DB).FindAll", "read", err="result1", extra=ownwin("result1")+"\n//@   ensures[C09,C20] nonnil: (forall ((j (_ BitVec 64))) (! (=> (bvult j (len result0)) (not (= (idx result0 j) null))) :pattern ((idx result0 j))))")
+api("(*DB).IterateDocs", "read", extra=ownwin("result"))
+api("(*DB).ForEach", "read", extra=ownwin("result"))
+api("(*DB).Count", "read", err="result1", one_tx=False, extra=ownwin("result1", guard="(not (= (old (@ q criteria)) vnil))"))
 api("(*DB).countCollection", "read", err="result1", use_extra="sorting catalog", mod="ghost*", extra="//@   ensures[C08,C09] window: (=> (= result1 vnil) (= result0 (winLen (catSize (decMeta (bytesStr (select (old (st cmVal)) (collKey (old (@ q collection))))))) (old (@ q skip)) (old (@ q limit)))))")
 api("(*DB).getCollectionSize", "read", err="result1", use_extra="catalog", mod="ghost*", extra="//@   ensures[C08,C09] committed-size: (=> (= result1 vnil) (= result0 (catSize (decMeta (bytesStr (select (old (st cmVal)) (collKey collection)))))))")
 api("(*DB).FindById", "read", err="result1")
-api("(*DB).FindFirst", "read", err="result1")
-api("(*DB).Exists", "read", err="result1")
+api("(*DB).FindFirst", "read", err="result1", extra=ownwin("result1", limit="(bv 1)"))
+api("(*DB).Exists", "read", err="result1", extra=ownwin("result1", limit="(bv 1)"))
 api("(*DB).ListCollections", "read", err="result1")
 api("(*DB).HasIndex", "read", err="result1")
 api("(*DB).ListIndexes", "read", err="result1")
